@@ -1,19 +1,26 @@
 package main
 
-// Honesty scan (go/ast over $VERIF_REPO, run by the parent before the workers): the request surface the option and
-// site tables were written from is re-read on every run.  A service method, a parameter of one, or a
-// PlannerContext field read by a planner that is not in the tables below is a harness failure (exit 2): somebody has
-// to decide whether it is a string position, a shape-selecting option, or irrelevant - silence is not an option.
+// Honesty scan (go/ast over $VERIF_REPO): the request surface the option and site tables were written from is
+// re-read on every run.  A service method, a parameter of one, or a PlannerContext field read by a planner that is not
+// in the tables below is NOT a failure (checks run unattended against refactored trees): it is reported as a cap
+// ("unclassified request item: ...", exhaustive=false, one line on stdout) and handled conservatively where the
+// harness can reach it generically - every string / []string / []byte parameter of an unknown exported service method
+// is enumerated as a position through reflection (autoSites).  A new parameter of a *known* method changes its Go
+// signature and breaks the build of the harness (exit 2, a real machinery failure); a new PlannerContext field can
+// only be reported.
 
 import (
+	"context"
 	"fmt"
 	"go/ast"
 	"go/parser"
 	"go/token"
 	"os"
 	"path/filepath"
+	"reflect"
 	"sort"
 	"strings"
+	"time"
 
 	"verif/mc/ev"
 )
@@ -94,17 +101,47 @@ var plannerContextFields = map[string]string{
 // the range parameters; the five hint shapes of promSites cover raw / downsampled x instant / range functions.
 var promHintFields = map[string]string{"Step": "shape", "Start": "shape", "End": "shape", "Range": "shape", "Func": "shape", "Grouping": "dead code", "By": "dead code"}
 
-func scanRequestSurface() (report map[string]any) {
+// scanResult: what the scan found.  Nothing in here is fatal: an unclassified item is reported as a cap
+// (exhaustive=false + a line on stdout) and, where the harness can reach it generically, enumerated conservatively.
+type scanResult struct {
+	Unclassified  []string            // "service parameter T.M.p", "PlannerContext field F", "scan: cannot read ..."
+	NewMethods    map[string][]string // "Type.Method" -> parameter names, for exported service methods with no classified parameter at all
+	ParamsChecked int
+	Fields        []string
+}
+
+var scanOnce *scanResult
+
+func scanRequestSurface() *scanResult {
+	if scanOnce != nil {
+		return scanOnce
+	}
+	res := &scanResult{NewMethods: map[string][]string{}}
+	scanOnce = res
 	repo := ev.Repo()
 	fset := token.NewFileSet()
-	var problems []string
-	// 1. exported methods of the four services and their parameters
-	services := map[string]bool{"QueryRangeService": true, "QueryLabelsService": true, "TempoService": true, "ProfService": true}
-	seenParams := 0
-	for _, f := range []string{"queryRangeService.go", "queryLabelsService.go", "tempoService.go", "tempoServiceTraceQL.go", "profService.go"} {
-		file, err := parser.ParseFile(fset, filepath.Join(repo, "reader/service", f), nil, 0)
+	goFiles := func(dir string) []string {
+		ents, err := os.ReadDir(filepath.Join(repo, dir))
 		if err != nil {
-			ev.Fatal("scan: %v", err)
+			res.Unclassified = append(res.Unclassified, "scan: cannot read "+dir+" (moved or renamed?)")
+			return nil
+		}
+		var out []string
+		for _, e := range ents {
+			if !e.IsDir() && strings.HasSuffix(e.Name(), ".go") && !strings.HasSuffix(e.Name(), "_test.go") {
+				out = append(out, filepath.Join(repo, dir, e.Name()))
+			}
+		}
+		sort.Strings(out)
+		return out
+	}
+	// 1. exported methods of the four services and their parameters (whole package: methods may move between files)
+	services := map[string]bool{"QueryRangeService": true, "QueryLabelsService": true, "TempoService": true, "ProfService": true}
+	for _, path := range goFiles("reader/service") {
+		file, err := parser.ParseFile(fset, path, nil, 0)
+		if err != nil {
+			res.Unclassified = append(res.Unclassified, "scan: cannot parse "+filepath.Base(path))
+			continue
 		}
 		for _, d := range file.Decls {
 			fd, ok := d.(*ast.FuncDecl)
@@ -120,13 +157,24 @@ func scanRequestSurface() (report map[string]any) {
 			if !services[recv] {
 				continue
 			}
+			var names []string
+			known := 0
 			for _, p := range fd.Type.Params.List {
 				for _, n := range p.Names {
-					key := recv + "." + fd.Name.Name + "." + n.Name
-					seenParams++
-					if _, ok := serviceParams[key]; !ok {
-						problems = append(problems, "service parameter not in the table: "+key)
+					names = append(names, n.Name)
+					res.ParamsChecked++
+					if _, ok := serviceParams[recv+"."+fd.Name.Name+"."+n.Name]; ok {
+						known++
 					}
+				}
+			}
+			if known == 0 && len(names) > 0 {
+				res.NewMethods[recv+"."+fd.Name.Name] = names
+				continue
+			}
+			for _, n := range names {
+				if _, ok := serviceParams[recv+"."+fd.Name.Name+"."+n]; !ok {
+					res.Unclassified = append(res.Unclassified, "service parameter "+recv+"."+fd.Name.Name+"."+n)
 				}
 			}
 		}
@@ -135,17 +183,11 @@ func scanRequestSurface() (report map[string]any) {
 	fields := map[string]int{}
 	for _, dir := range []string{"reader/logql/logql_transpiler_v2/clickhouse_planner", "reader/traceql/transpiler", "reader/traceql/transpiler/clickhouse_transpiler",
 		"reader/prof/transpiler", "reader/promql/transpiler", "reader/tempo"} {
-		ents, err := os.ReadDir(filepath.Join(repo, dir))
-		if err != nil {
-			ev.Fatal("scan: %v", err)
-		}
-		for _, e := range ents {
-			if e.IsDir() || !strings.HasSuffix(e.Name(), ".go") || strings.HasSuffix(e.Name(), "_test.go") {
-				continue
-			}
-			file, err := parser.ParseFile(fset, filepath.Join(repo, dir, e.Name()), nil, 0)
+		for _, path := range goFiles(dir) {
+			file, err := parser.ParseFile(fset, path, nil, 0)
 			if err != nil {
-				ev.Fatal("scan: %v", err)
+				res.Unclassified = append(res.Unclassified, "scan: cannot parse "+filepath.Base(path))
+				continue
 			}
 			// identifiers declared with type *shared.PlannerContext (parameters named ctx, mostly)
 			pcNames := map[string]bool{}
@@ -175,23 +217,133 @@ func scanRequestSurface() (report map[string]any) {
 			})
 		}
 	}
-	// sql.Ctx has an Id() too; PlannerContext identifiers are what was collected, so only its own members show up
 	for f := range fields {
+		res.Fields = append(res.Fields, f)
 		if _, ok := plannerContextFields[f]; !ok {
-			problems = append(problems, "PlannerContext field read by a planner but not in the table: "+f)
+			res.Unclassified = append(res.Unclassified, "PlannerContext field "+f+" (read by a planner; no option of the harness varies it)")
 		}
 	}
-	if len(problems) > 0 {
-		sort.Strings(problems)
-		for _, p := range problems {
-			fmt.Fprintln(os.Stderr, "request-surface scan:", p)
+	sort.Strings(res.Fields)
+	sort.Strings(res.Unclassified)
+	return res
+}
+
+// ---- generic reach: exported service methods the tables do not know ------------------------------------------------
+
+var (
+	tString  = reflect.TypeOf("")
+	tStrings = reflect.TypeOf([]string(nil))
+	tBytes   = reflect.TypeOf([]byte(nil))
+	tCtx     = reflect.TypeOf((*context.Context)(nil)).Elem()
+	tTime    = reflect.TypeOf(time.Time{})
+)
+
+// callGeneric invokes recv.Method with the string-typed argument `hole` set to text and every other argument set to
+// a harmless value of its type; channels in the results are drained.  Panics are caught by Env.capture.
+func callGeneric(recv any, method string, hole int, text string) error {
+	m := reflect.ValueOf(recv).MethodByName(method)
+	if !m.IsValid() {
+		return fmt.Errorf("no method %s", method)
+	}
+	mt := m.Type()
+	args := make([]reflect.Value, mt.NumIn())
+	timeSeen := 0
+	for i := 0; i < mt.NumIn(); i++ {
+		t := mt.In(i)
+		switch {
+		case t == tCtx:
+			args[i] = reflect.ValueOf(context.Background())
+		case t == tString:
+			v := "x"
+			if i == hole {
+				v = text
+			}
+			args[i] = reflect.ValueOf(v)
+		case t == tStrings:
+			v := []string{"x"}
+			if i == hole {
+				v = []string{text}
+			}
+			args[i] = reflect.ValueOf(v)
+		case t == tBytes:
+			v := []byte("ab")
+			if i == hole {
+				v = []byte(text)
+			}
+			args[i] = reflect.ValueOf(v)
+		case t == tTime:
+			if timeSeen%2 == 0 {
+				args[i] = reflect.ValueOf(fromT)
+			} else {
+				args[i] = reflect.ValueOf(toT)
+			}
+			timeSeen++
+		case t.Kind() >= reflect.Int && t.Kind() <= reflect.Uint64:
+			args[i] = reflect.ValueOf(1700000000).Convert(t)
+		default:
+			args[i] = reflect.Zero(t)
 		}
-		ev.Fatal("%d request-surface items are not accounted for (mc/cmd/c10/scan.go, options.go)", len(problems))
 	}
-	fl := make([]string, 0, len(fields))
-	for f := range fields {
-		fl = append(fl, f)
+	if mt.IsVariadic() {
+		args = args[:len(args)-1]
 	}
-	sort.Strings(fl)
-	return map[string]any{"service_parameters_checked": seenParams, "planner_context_fields_read": fl}
+	var err error
+	for _, out := range m.Call(args) {
+		if out.Kind() == reflect.Chan && !out.IsNil() && out.Type().ChanDir()&reflect.RecvDir != 0 {
+			for {
+				if _, ok := out.Recv(); !ok {
+					break
+				}
+			}
+		}
+		if e, ok := out.Interface().(error); ok && e != nil {
+			err = e
+		}
+	}
+	return err
+}
+
+func (e *Env) serviceByType(name string) any {
+	switch name {
+	case "QueryRangeService":
+		return e.single.qr
+	case "QueryLabelsService":
+		return e.single.ql
+	case "TempoService":
+		return e.single.tempo
+	case "ProfService":
+		return e.single.prof
+	}
+	return nil
+}
+
+// autoSites: every string-like parameter of an exported service method the tables do not know becomes a position,
+// handed over as it is (no query-language quoting is known for it).
+func autoSites() {
+	res := scanRequestSurface()
+	if len(res.NewMethods) == 0 {
+		return
+	}
+	probe := newEnv()
+	for _, key := range sortedKeys(res.NewMethods) {
+		tm := strings.SplitN(key, ".", 2)
+		recv := probe.serviceByType(tm[0])
+		m := reflect.ValueOf(recv).MethodByName(tm[1])
+		if recv == nil || !m.IsValid() {
+			continue
+		}
+		for i := 0; i < m.Type().NumIn(); i++ {
+			t := m.Type().In(i)
+			if t != tString && t != tStrings && t != tBytes {
+				continue
+			}
+			i, typ, meth := i, tm[0], tm[1]
+			add(Site{ID: fmt.Sprintf("auto/%s.%s/arg%d", typ, meth, i), Group: "unclassified_service_method", Lang: "auto", Quote: qPlain,
+				Auto: true,
+				Exec: func(e *Env, text string) ([]string, error) {
+					e.endpoint = "auto"
+					return e.capture(func() error { return callGeneric(e.serviceByType(typ), meth, i, text) })
+				}})
+		}
+	}
 }
